@@ -410,9 +410,26 @@ def _unit_G(name):
         _check_wired(part, _wire_body(data), plain, "UDPMessageSerializer.serialize[zerocoded body]", w)
         if plain.count(0) and len(ref_compress(plain)) >= len(plain):
             part.mark_nontrivial(("wired-no-gain", name, case["tag"]))
-        # parsed from the wire with bytes beyond the last block, touched, serialized again
         if len(seen) > 3:
             continue
+        # the zero-coded header peek: extra header bytes (with isolated zeros, which GROW when coded) in front of a zerocoded body
+        for extra in msggen.EXTRAS[1:4] + [b"\x00\x01" * 10, b"\x00" * 9 + b"\x05"]:
+            part.count("evaluations")
+            part.count("G_extra_cases")
+            w3 = {"kind": "wired", "name": name, "tag": case["tag"], "extra": extra}
+            site = "UDPMessageDeserializer._parse_message_header[zerocoded, extra bytes]"
+            c3 = dict(case, extra=extra)
+            try:
+                d3 = bytes(ser.serialize(gen.lib_message(c3)))
+                m3 = de.deserialize(d3)
+                list(m3.blocks.items())
+                if m3.name != name or bytes(m3.extra) != extra:
+                    part.violation("wired-roundtrip", site, w3, f"decoded name {m3.name!r} extra {bytes(m3.extra).hex()} for {name} with extra {extra.hex()}")
+            except Exception as e:
+                part.violation("wired-roundtrip", site, w3, f"a datagram the serializer produced ({len(extra)} extra bytes {extra[:8].hex()}..) "
+                                                            f"does not decode: {e!r}")
+            part.mark_nontrivial(("wired-extra", name, extra))
+        # parsed from the wire with bytes beyond the last block, touched, serialized again
         hdr = struct.pack(">BIB", case["flags"], case["packet_id"], 0)
         for t in TRAILERS:
             part.count("evaluations")
